@@ -162,8 +162,8 @@ func (c *Ctx) checkSubstMatrices() {
 		c.checkTableImmutable("align", spec.mat)
 		c.checkTableImmutable("align", spec.idx)
 	}
-	L.Floor("subst-matrix", 4, "two matrices: square + symmetric")
-	L.Floor("index-map", 4, "two maps + aliases")
+	L.Floor("subst-matrix", 2, "two matrices: square + symmetric (floor = half of the instances on the pinned tree: a clean-up may merge instances, a rule that sees nothing must still fail)")
+	L.Floor("index-map", 2, "two maps + aliases (floor = half of the instances on the pinned tree: a clean-up may merge instances, a rule that sees nothing must still fail)")
 }
 
 // checkBacktrackCounters: per block that lengthens the alignment.
@@ -625,7 +625,7 @@ func (c *Ctx) checkGapRecurrence() {
 	}
 	L.Check(okInit, "gap-recurrence", r.label, "horizontal gap state starts afresh in every row", c.P.Pos(fn.Pos()), "initialised from the row's first cell before the column loop", "the horizontal-gap value of one row leaks into the next row: "+detInit)
 	L.Check(okReg, "gap-recurrence", r.label, "horizontal gap state", c.P.Pos(fn.Pos()), "bx += gapextend; if matrix[i][j-1]+gapopen > bx { bx = that }", "the horizontal-gap recurrence is not max(extended, opened): "+det2)
-	L.Floor("gap-recurrence", 3, "two directions + per-row initialisation")
+	L.Floor("gap-recurrence", 1, "two directions + per-row initialisation (floor = half of the instances on the pinned tree: a clean-up may merge instances, a rule that sees nothing must still fail)")
 }
 
 func isMatrixCellLoad(v ssa.Value) bool {
